@@ -28,7 +28,8 @@ RULE = ("cases: every TimeEvoMode x dimension 1..12 (each pair at least once Her
         "(mode, n, shape, herm, direction, t>0, dtype) whose route is not the default expm_multiply "
         "on a flat complex vector")
 PARTIAL = ["accuracy of scipy expm / expm_multiply / sparse expm / solve_ivp is by contract "
-           "(hypothesis of the theorems; validated against the independent propagator on every case)",
+           "(hypothesis of the theorems; validated against the independent propagator on every case); "
+           "that the exact solution of the ODE branch is exp(exponent) y0 is proved (ode_branch_flow, matrix form)",
            "ODE modes are only accurate to the solver's default rtol=1e-3/atol=1e-6: the oracle "
            "demands 5e-2 (RK23), 3e-2 (BDF), 1e-2 (RK45), 5e-3 (DOP853) relative to ||U|| ||psi|| "
            "(>= 6x the maxima measured over 20k cases with ||H||t <= 3)",
